@@ -106,8 +106,42 @@ def val (tok : String) : String :=
   | [_, v] => v
   | _ => ""
 
+/-- The `hs=` token: the state only a snapshot shows (next queue stamp, trading flag, every record's queue key),
+as the real book's own `Serialize` output carries it. It is compared with the model's state as text; the
+observation record `Obs` (what the getters show, and what the reference engine is compared on) does not hold it. -/
+def isHidden (t : String) : Bool := t.startsWith "hs="
+def hiddenOf (toks : List String) : Option String := (toks.find? isHidden).map val
+
+def showHidden (b : Book) : String :=
+  let ks := if b.orders.isEmpty then "-"
+            else ";".intercalate (b.orders.map fun e => s!"{if e.key.side == .bid then "b" else "a"}:{e.key.pk}:{e.key.st}")
+  s!"{b.stamp}/{if b.trading then 1 else 0}/{ks}"
+
+/-- `["hidden_state"]` when the implementation reported its hidden state and it is not the model's. -/
+def hiddenDiff (b : Book) (h : Option String) : List String :=
+  match h with
+  | none => []
+  | some s => if s == showHidden b then [] else ["hidden_state"]
+
+def hiddenDiffs (bs : List Book) (hs : List (Option String)) : List String :=
+  ((bs.zip hs).flatMap fun (b, h) => hiddenDiff b h).eraseDups
+
+/-- A submission between steps leaves the hidden state alone: same stamp counter, same flag, the keys of the
+existing records unchanged (a successful placement adds one record). -/
+def hiddenUntouched (prev next : Option String) (mayAppend : Bool) (flagMayChange : Bool) : Bool :=
+  match prev, next with
+  | some p, some n =>
+    match splitC p "/", splitC n "/" with
+    | [pq, pt, pk], [nq, nt, nk] =>
+      let pks := if pk == "-" then [] else splitC pk ";"
+      let nks := if nk == "-" then [] else splitC nk ";"
+      pq == nq && (flagMayChange || pt == nt) &&
+        (nks == pks || (mayAppend && nks.length == pks.length + 1 && nks.take pks.length == pks))
+    | _, _ => false
+  | _, _ => true
+
 /-- Parse the tokens of an observation line (after the leading `I`). -/
-def parseObs : List String → Option (Res × Obs × String)
+def parseObsCore : List String → Option (Res × Obs × String)
   | [r, t, tr, tv, ba, v, bb, ab, bv, bl, al, l1, l2, mid, o, x, sh] => do
       let res ← parseRes (val r)
       let mid2 : Option Nat ← if val mid == "X" then some none else (val mid).toNat?.map some
@@ -122,6 +156,8 @@ def parseObs : List String → Option (Res × Obs × String)
         orders := ← parseList parseOrder (val o), trades := ← parseList parseTrade (val x) }
       pure (res, obs, val sh)
   | _ => none
+
+def parseObs (toks : List String) : Option (Res × Obs × String) := parseObsCore (toks.filter (!isHidden ·))
 
 /-! ### Printing (same format) -/
 
